@@ -1222,6 +1222,33 @@ public:
   FilteredDirectoryContentsTask(StringRef path, StringList&& filters)
       : path(path), filters(std::move(filters))
       , directoryValue(BuildValue::makeInvalid()) {}
+
+  static bool isResultValid(BuildEngine& engine, StringRef path,
+                            const StringList& filters,
+                            const BuildValue& value) {
+    // Any other kind of value is fully determined by the dependencies on the
+    // node and its stat information.
+    if (!value.isFilteredDirectoryContents())
+      return true;
+
+    // The stat information of a directory does not necessarily change when
+    // its listing does (e.g., in the checksum-only file system mode, where an
+    // entry that is renamed, or added while another one is removed, leaves it
+    // untouched), so compare the listing itself, as is done for unfiltered
+    // directory contents.
+    std::vector<std::string> cur;
+    std::error_code ec = getFilteredContents(path, filters, cur);
+    (void)ec;
+
+    auto prev = value.getDirectoryContents();
+    if (cur.size() != prev.size())
+      return false;
+    for (size_t i = 0; i != cur.size(); ++i) {
+      if (prev[i] != cur[i])
+        return false;
+    }
+    return true;
+  }
 };
 
 
@@ -1841,7 +1868,12 @@ std::unique_ptr<Rule> BuildSystemEngineDelegate::lookupRule(const KeyType& keyDa
         BinaryDecoder decoder(patterns);
         return new FilteredDirectoryContentsTask(path, StringList(decoder));
       },
-      /*IsValid=*/ nullptr
+      /*IsValid=*/ [path, patterns](BuildEngine& engine, const Rule& rule,
+                                    const ValueType& value) -> bool {
+        BinaryDecoder decoder(patterns);
+        return FilteredDirectoryContentsTask::isResultValid(
+            engine, path, StringList(decoder), BuildValue::fromData(value));
+      }
     ));
   }
 
